@@ -94,6 +94,14 @@ def generate(run_seed, tier):
            'derived': derived, 'N': N, 'sigma_fraction': frac,
            'weight_family': family, 'weights': weights,
            'samples_u': samples_u, 'pyseed': d.randrange(2**31)}
+    if c.random() < 0.3:
+        # a second solution (mode) post-processed by the same objects
+        N2 = max(2, c.choice([2, 3, Rn, Rn + 1, N, c.randint(2, 24)]))
+        fam2 = d.choice(WEIGHT_FAMILIES)
+        cfg['extra_solutions'] = [{
+            'N': N2, 'weight_family': fam2, 'weights': gen_weights(d, N2, fam2),
+            'samples_u': [[d.uniform(0.02, 0.98) for _ in fit]
+                          for _ in range(N2)]}]
     s = st('sched')
     bias = s.choice(['random', 'random', 'starve_last', 'starve_first',
                      'natural'])
@@ -132,10 +140,12 @@ def make_optimizer_class():
             self.seen = []
 
         def get_samples(self, solution_id):
-            return self._s
+            return self._s[solution_id] if isinstance(self._s, list) \
+                else self._s
 
         def get_weights(self, solution_id):
-            return self._w
+            return self._w[solution_id] if isinstance(self._w, list) \
+                else self._w
 
         def update_model(self, fit_params):
             self.seen.append(tuple(float(x) for x in fit_params))
@@ -207,31 +217,42 @@ def execute(case, keep_text=False):
     obs0 = S.build_obs(cfg['obs'])
     fit_by_name = {f['name']: f for f in cfg['fit']}
     order = S.fit_order(model0, obs0, cfg['fit'])
+    posts = []
+    for pc in [cfg] + list(cfg.get('extra_solutions', [])):
+        sm = np.array([S.sample_theta(fit_by_name, order, us)
+                       for us in pc['samples_u']], dtype=float)
+        posts.append((sm.reshape(pc['N'], len(order)),
+                      np.array(pc['weights'], dtype=float)))
+    nsol = len(posts)
     N = cfg['N']
-    samples = np.array([S.sample_theta(fit_by_name, order, us)
-                        for us in cfg['samples_u']], dtype=float)
-    samples = samples.reshape(N, len(order))
-    weights = np.array(cfg['weights'], dtype=float)
+    samples, weights = posts[0]
     derived = [d for d in cfg['derived']]
 
     world = SimWorld(Rn, perms=perms, log=log,
-                     cap=200 + 40 * (len(derived) + 8))
+                     cap=nsol * (200 + 40 * (len(derived) + 8)))
     ranks = [None] * Rn
-    phases = [dict() for _ in range(Rn)]
+    allphases = [[dict() for _ in range(Rn)] for _ in range(nsol)]
 
     def body(r):
-        model, obs, opt = _build_rank(cfg, samples.copy(), weights.copy())
+        model, obs, opt = _build_rank(cfg, [p[0].copy() for p in posts],
+                                      [p[1].copy() for p in posts])
         ranks[r] = opt
         if r == 0:
             pyrandom.seed(cfg['pyseed'])
-        prof, spec = opt.generate_profiles(0, obs.wavenumberGrid)
-        phases[r]['profiles_seen'] = list(opt.seen)
-        opt.seen = []
-        dtrace = opt.compute_derived_trace(0) if derived else None
-        phases[r]['derived_seen'] = list(opt.seen)
-        return prof, spec, dtrace
+        res = []
+        for sid in range(nsol):
+            opt.seen = []
+            prof, spec = opt.generate_profiles(sid, obs.wavenumberGrid)
+            allphases[sid][r]['profiles_seen'] = list(opt.seen)
+            opt.seen = []
+            dtrace = opt.compute_derived_trace(sid) if derived else None
+            allphases[sid][r]['derived_seen'] = list(opt.seen)
+            res.append((prof, spec, dtrace))
+        return res
 
-    results = world.run(body)
+    allresults = world.run(body)
+    if nsol > 1:
+        out.bump('probes', 'second_solution_same_objects')
     out.bump('steps', 'collectives', world.ncollectives)
     out.bump('steps', 'world_runs')
     out.bump('faults', 'serialised_bytes', world.bytes_pickled)
@@ -278,150 +299,157 @@ def execute(case, keep_text=False):
 
         # (i) every rank returns the same dictionaries
         from sim.kernel import canon
-        c0 = canon([results[0][0], results[0][1], results[0][2]])
+        c0 = canon(allresults[0])
         for r in range(1, Rn):
-            if canon([results[r][0], results[r][1], results[r][2]]) != c0:
+            if canon(allresults[r]) != c0:
                 viol('ranks-disagree', 'result', 'rank %d differs from rank 0'
                      % r)
                 raise StopIteration
-        log.add('world', 'result', [results[0][0], results[0][1],
-                                    results[0][2]])
-
-        # (iv) exactly-once over profiles: union of per-rank vectors equals
-        # the broadcast list
-        bc = [p for k, p in world.captured if k == 'bcast']
-        if not bc or bc[0] is None:
-            viol('protocol', 'broadcast', 'no sample list was broadcast')
+        log.add('world', 'result', allresults[0])
+        allbc = [p for k, p in world.captured if k == 'bcast']
+        if len(allbc) != nsol or any(b is None for b in allbc):
+            viol('protocol', 'broadcast', '%d sample lists were broadcast for '
+                 '%d solutions' % (len(allbc), nsol))
             raise StopIteration
-        bl = [(tuple(float(x) for x in p), float(w)) for p, w in bc[0]]
-        if len(bl) != k_proc:
-            viol('sample-count', 'profiles', 'int(N*sigma_fraction)=%d samples '
-                 'expected for post-processing, %d were broadcast'
-                 % (k_proc, len(bl)))
-            raise StopIteration
-        pool = {tuple(float(x) for x in s): i for i, s in enumerate(samples)}
-        if len(set(p for p, w in bl)) != len(bl) or \
-                not all(p in pool for p, w in bl):
-            viol('sample-count', 'profiles-distinct', 'broadcast list is not a '
-                 'set of distinct posterior samples')
-            raise StopIteration
-        for p, w in bl:
-            want = float(weights[pool[p]])
-            if abs(w - want) > 1e-12 * want + 2e-300:
-                viol('sample-weight', 'profiles', 'sample %d is post-processed '
-                     'with weight %r, its posterior weight is %r'
-                     % (pool[p], w, want))
+        for sid in range(nsol):
+            samples, weights = posts[sid]
+            N = len(weights)
+            k_proc = int(N * cfg['sigma_fraction'])
+            per_rank = [len(range(r, k_proc, Rn)) for r in range(Rn)]
+            phases = allphases[sid]
+            results = [ar[sid] for ar in allresults]
+            # (iv) exactly-once over profiles: union of per-rank vectors equals
+            # the broadcast list
+            bc = [allbc[sid]]
+            bl = [(tuple(float(x) for x in p), float(w)) for p, w in bc[0]]
+            if len(bl) != k_proc:
+                viol('sample-count', 'profiles', 'int(N*sigma_fraction)=%d samples '
+                     'expected for post-processing, %d were broadcast'
+                     % (k_proc, len(bl)))
                 raise StopIteration
-        seen = []
-        for r in range(Rn):
-            seen += phases[r]['profiles_seen']
-        if sorted(seen) != sorted(p for p, w in bl):
-            viol('not-exactly-once', 'profiles',
-                 '%d samples drawn for post-processing, ranks processed %d '
-                 '(multisets differ)' % (len(bl), len(seen)))
-            raise StopIteration
-
-        # (ii) reference two-pass weighted variance with a fresh single model
-        acc = {'temp_profile_std': [], 'active_mix_profile_std': [],
-               'inactive_mix_profile_std': [], 'native_std': [],
-               'binned_std': []}
-        wl = []
-        binner = obs0.create_binner()
-        for theta, w in bl:
-            S.ref_set(model0, obs0, fit_by_name, order, theta)
-            ng, native, tau, _ = model0.model(wngrid=obs0.wavenumberGrid,
-                                              cutoff_grid=False)
-            acc['temp_profile_std'].append(np.array(model0.temperatureProfile))
-            acc['active_mix_profile_std'].append(
-                np.array(model0.chemistry.activeGasMixProfile))
-            acc['inactive_mix_profile_std'].append(
-                np.array(model0.chemistry.inactiveGasMixProfile))
-            acc['native_std'].append(np.array(native))
-            acc['binned_std'].append(np.array(binner.bindown(ng, native)[1]))
-            wl.append(w)
-        prof, spec, dtrace = results[0]
-        got = dict(prof)
-        got.update(spec)
-        for key in sorted(acc):
-            if key not in got:
-                viol('missing-output', key, 'not in result')
-                continue
-            impl_std = np.asarray(got[key], dtype=float)
-            if len(wl) < 2:
-                if not np.all(np.isnan(impl_std)):
-                    viol('std-mismatch', key, 'fewer than two processed '
-                         'samples must give NaN, got %r' % (impl_std,))
-                continue
-            if max(wl) < 1e-280:
-                out.bump('probes', 'all_subnormal_subset')
-                continue
-            X = np.array(acc[key], dtype=float)
-            wn = np.array(wl) / max(wl)
-            mean = np.tensordot(wn, X, axes=(0, 0)) / wn.sum()
-            var = np.tensordot(wn, (X - mean) ** 2, axes=(0, 0)) / wn.sum()
-            # round-off of the streaming update is of order eps*max|x|^2,
-            # also for samples whose weight is negligible in the mean
-            scale = np.sqrt(np.max(X ** 2, axis=0))
-            msg = _var_close(impl_std ** 2, var, scale, key)
-            if msg:
-                viol('std-mismatch', key,
-                     '%s R=%d per-rank counts=%s' % (msg, Rn, per_rank))
-        if out.violations:
-            raise StopIteration
-
-        # (iii)+(iv) derived traces: one entry per sample, in sample order
-        if derived:
+            pool = {tuple(float(x) for x in s): i for i, s in enumerate(samples)}
+            if len(set(p for p, w in bl)) != len(bl) or \
+                    not all(p in pool for p, w in bl):
+                viol('sample-count', 'profiles-distinct', 'broadcast list is not a '
+                     'set of distinct posterior samples')
+                raise StopIteration
+            for p, w in bl:
+                want = float(weights[pool[p]])
+                if abs(w - want) > 1e-12 * want + 2e-300:
+                    viol('sample-weight', 'profiles', 'sample %d is post-processed '
+                         'with weight %r, its posterior weight is %r'
+                         % (pool[p], w, want))
+                    raise StopIteration
             seen = []
             for r in range(Rn):
-                seen += phases[r]['derived_seen']
-            if sorted(seen) != sorted(tuple(float(x) for x in s)
-                                      for s in samples):
-                viol('not-exactly-once', 'derived',
-                     'posterior has %d samples, ranks processed %d '
-                     '(multisets differ)' % (N, len(seen)))
+                seen += phases[r]['profiles_seen']
+            if sorted(seen) != sorted(p for p, w in bl):
+                viol('not-exactly-once', 'profiles',
+                     '%d samples drawn for post-processing, ranks processed %d '
+                     '(multisets differ)' % (len(bl), len(seen)))
                 raise StopIteration
-            ref_tr = {d: [] for d in derived}
-            for i in range(N):
-                S.ref_set(model0, obs0, fit_by_name, order, samples[i])
-                model0.initialize_profiles()
-                for d in derived:
-                    ref_tr[d].append(float(model0.derivedParameters[d][2]()))
-            dn = [n for n in model0.derivedParameters if n in derived]
-            if dtrace is None or sorted(dtrace) != sorted(
-                    '%s_derived' % d for d in dn):
-                viol('derived-missing', 'keys', 'got %s want %s'
-                     % (sorted(dtrace or {}), dn))
+
+            # (ii) reference two-pass weighted variance with a fresh single model
+            acc = {'temp_profile_std': [], 'active_mix_profile_std': [],
+                   'inactive_mix_profile_std': [], 'native_std': [],
+                   'binned_std': []}
+            wl = []
+            binner = obs0.create_binner()
+            for theta, w in bl:
+                S.ref_set(model0, obs0, fit_by_name, order, theta)
+                ng, native, tau, _ = model0.model(wngrid=obs0.wavenumberGrid,
+                                                  cutoff_grid=False)
+                acc['temp_profile_std'].append(np.array(model0.temperatureProfile))
+                acc['active_mix_profile_std'].append(
+                    np.array(model0.chemistry.activeGasMixProfile))
+                acc['inactive_mix_profile_std'].append(
+                    np.array(model0.chemistry.inactiveGasMixProfile))
+                acc['native_std'].append(np.array(native))
+                acc['binned_std'].append(np.array(binner.bindown(ng, native)[1]))
+                wl.append(w)
+            prof, spec, dtrace = results[0]
+            got = dict(prof)
+            got.update(spec)
+            for key in sorted(acc):
+                if key not in got:
+                    viol('missing-output', key, 'not in result')
+                    continue
+                impl_std = np.asarray(got[key], dtype=float)
+                if len(wl) < 2:
+                    if not np.all(np.isnan(impl_std)):
+                        viol('std-mismatch', key, 'fewer than two processed '
+                             'samples must give NaN, got %r' % (impl_std,))
+                    continue
+                if max(wl) < 1e-280:
+                    out.bump('probes', 'all_subnormal_subset')
+                    continue
+                X = np.array(acc[key], dtype=float)
+                wn = np.array(wl) / max(wl)
+                mean = np.tensordot(wn, X, axes=(0, 0)) / wn.sum()
+                var = np.tensordot(wn, (X - mean) ** 2, axes=(0, 0)) / wn.sum()
+                # round-off of the streaming update is of order eps*max|x|^2,
+                # also for samples whose weight is negligible in the mean
+                scale = np.sqrt(np.max(X ** 2, axis=0))
+                msg = _var_close(impl_std ** 2, var, scale, key)
+                if msg:
+                    viol('std-mismatch', key,
+                         '%s R=%d per-rank counts=%s' % (msg, Rn, per_rank))
+            if out.violations:
                 raise StopIteration
-            for d in dn:
-                ent = dtrace['%s_derived' % d]
-                tr = np.asarray(ent['trace'], dtype=float)
-                rt = np.array(ref_tr[d])
-                if tr.shape != rt.shape:
-                    viol('derived-trace', 'length', '%s: %d entries for %d '
-                         'samples' % (d, tr.size, N))
-                    continue
-                if not np.allclose(tr, rt, rtol=1e-12, atol=0):
-                    same_set = np.allclose(np.sort(tr), np.sort(rt),
-                                           rtol=1e-12, atol=0)
-                    viol('derived-trace',
-                         'order' if same_set else 'values',
-                         '%s: trace not in sample order (R=%d, first '
-                         'mismatch at sample %d)'
-                         % (d, Rn, int(np.argmax(~np.isclose(
-                             tr, rt, rtol=1e-12, atol=0)))))
-                    continue
-                q16, q50, q84 = ref_quantiles(list(rt), list(weights),
-                                              [0.16, 0.5, 0.84])
-                for nm, want in (('value', q50), ('sigma_m', q50 - q16),
-                                 ('sigma_p', q84 - q50)):
-                    gotv = float(ent[nm])
-                    if abs(gotv - want) > 1e-9 * max(abs(q50), 1e-300):
-                        viol('derived-summary', nm, '%s: %r vs %r'
-                             % (d, gotv, want))
-                wm = float(np.sum(rt * weights) / np.sum(weights))
-                if abs(float(ent['mean']) - wm) > 1e-9 * max(abs(wm), 1e-300):
-                    viol('derived-summary', 'mean', '%s: %r vs %r'
-                         % (d, float(ent['mean']), wm))
+
+            # (iii)+(iv) derived traces: one entry per sample, in sample order
+            if derived:
+                seen = []
+                for r in range(Rn):
+                    seen += phases[r]['derived_seen']
+                if sorted(seen) != sorted(tuple(float(x) for x in s)
+                                          for s in samples):
+                    viol('not-exactly-once', 'derived',
+                         'posterior has %d samples, ranks processed %d '
+                         '(multisets differ)' % (N, len(seen)))
+                    raise StopIteration
+                ref_tr = {d: [] for d in derived}
+                for i in range(N):
+                    S.ref_set(model0, obs0, fit_by_name, order, samples[i])
+                    model0.initialize_profiles()
+                    for d in derived:
+                        ref_tr[d].append(float(model0.derivedParameters[d][2]()))
+                dn = [n for n in model0.derivedParameters if n in derived]
+                if dtrace is None or sorted(dtrace) != sorted(
+                        '%s_derived' % d for d in dn):
+                    viol('derived-missing', 'keys', 'got %s want %s'
+                         % (sorted(dtrace or {}), dn))
+                    raise StopIteration
+                for d in dn:
+                    ent = dtrace['%s_derived' % d]
+                    tr = np.asarray(ent['trace'], dtype=float)
+                    rt = np.array(ref_tr[d])
+                    if tr.shape != rt.shape:
+                        viol('derived-trace', 'length', '%s: %d entries for %d '
+                             'samples' % (d, tr.size, N))
+                        continue
+                    if not np.allclose(tr, rt, rtol=1e-12, atol=0):
+                        same_set = np.allclose(np.sort(tr), np.sort(rt),
+                                               rtol=1e-12, atol=0)
+                        viol('derived-trace',
+                             'order' if same_set else 'values',
+                             '%s: trace not in sample order (R=%d, first '
+                             'mismatch at sample %d)'
+                             % (d, Rn, int(np.argmax(~np.isclose(
+                                 tr, rt, rtol=1e-12, atol=0)))))
+                        continue
+                    q16, q50, q84 = ref_quantiles(list(rt), list(weights),
+                                                  [0.16, 0.5, 0.84])
+                    for nm, want in (('value', q50), ('sigma_m', q50 - q16),
+                                     ('sigma_p', q84 - q50)):
+                        gotv = float(ent[nm])
+                        if abs(gotv - want) > 1e-9 * max(abs(q50), 1e-300):
+                            viol('derived-summary', nm, '%s: %r vs %r'
+                                 % (d, gotv, want))
+                    wm = float(np.sum(rt * weights) / np.sum(weights))
+                    if abs(float(ent['mean']) - wm) > 1e-9 * max(abs(wm), 1e-300):
+                        viol('derived-summary', 'mean', '%s: %r vs %r'
+                             % (d, float(ent['mean']), wm))
     except StopIteration:
         pass
     out.digest = log.digest()
@@ -431,6 +459,10 @@ def execute(case, keep_text=False):
 def simplify(case):
     import copy
     cfg = case['config']
+    if cfg.get('extra_solutions'):
+        c = copy.deepcopy(case)
+        del c['config']['extra_solutions']
+        yield c
     # fewer ranks
     for r in (1, 2, 3):
         if r < cfg['R']:
@@ -465,6 +497,9 @@ def simplify(case):
             del c['config']['fit'][i]
             for row in c['config']['samples_u']:
                 del row[-1]
+            for ex in c['config'].get('extra_solutions', []):
+                for row in ex['samples_u']:
+                    del row[-1]
             yield c
     # simpler model
     if len(cfg['model']['contribs']) > 1 and \
